@@ -267,8 +267,11 @@ pub fn main(args: &[String]) -> i32 {
                 let d = Difficulty::new().mods(lazer_mods.clone());
                 format!("{:?}|{:?}|{:?}", d.calculate(map), d.strains(map), Performance::new(map).difficulty(d.clone()).accuracy(97.0).calculate())
             });
+            // Nightcore / Daycore split the speed change into a fixed frequency adjustment (1.5 / 0.75) and a tempo adjustment, as
+            // lazer does: the rate they stand for is default * (r / default), which is r up to one ulp (and exactly r on most grids)
+            let r_ref = if core { let dflt = if r >= 1.0 { 1.5 } else { 0.75 }; dflt * (r / dflt) } else { r };
             let b = guarded(|| {
-                let d = Difficulty::new().clock_rate(r);
+                let d = Difficulty::new().clock_rate(r_ref);
                 format!("{:?}|{:?}|{:?}", d.calculate(map), d.strains(map), Performance::new(map).difficulty(d.clone()).accuracy(97.0).calculate())
             });
             if a != b {
